@@ -431,6 +431,18 @@ pub(crate) fn fmt_snippet_window_offset_or_fallback(
     )
 }
 
+/// Write `n` spaces. (A run-time width in a format string, `{:>n$}`, panics above `u16::MAX`,
+/// which a caret column on a very long line reaches when cropping is switched off.)
+fn write_spaces(f: &mut fmt::Formatter<'_>, mut n: usize) -> fmt::Result {
+    const SPACES: &str = "                                                                ";
+    while n > 0 {
+        let k = n.min(SPACES.len());
+        f.write_str(&SPACES[..k])?;
+        n -= k;
+    }
+    Ok(())
+}
+
 fn fmt_snippet_window_with_mapping_or_fallback(
     f: &mut fmt::Formatter<'_>,
     _l10n: &dyn Localizer,
@@ -557,20 +569,13 @@ fn fmt_snippet_window_with_mapping_or_fallback(
                 .map(|c| if c == '\t' { 4 } else { 1 })
                 .sum();
             if msg.is_empty() {
-                writeln!(
-                    f,
-                    "{:gutter_width$} | {space:>caret_chars$}^",
-                    "",
-                    space = ""
-                )?;
+                write!(f, "{:gutter_width$} | ", "")?;
+                write_spaces(f, caret_chars)?;
+                writeln!(f, "^")?;
             } else {
-                writeln!(
-                    f,
-                    "{:gutter_width$} | {space:>caret_chars$}^ {msg}",
-                    "",
-                    space = "",
-                    msg = msg
-                )?;
+                write!(f, "{:gutter_width$} | ", "")?;
+                write_spaces(f, caret_chars)?;
+                writeln!(f, "^ {msg}")?;
             }
         }
 
@@ -593,20 +598,13 @@ fn fmt_snippet_window_with_mapping_or_fallback(
                 .unwrap_or(0);
             let caret_chars = window_text[line_byte_start..local_start].chars().count();
             if msg.is_empty() {
-                writeln!(
-                    f,
-                    "{:gutter_width$} | {space:>caret_chars$}^",
-                    "",
-                    space = ""
-                )?;
+                write!(f, "{:gutter_width$} | ", "")?;
+                write_spaces(f, caret_chars)?;
+                writeln!(f, "^")?;
             } else {
-                writeln!(
-                    f,
-                    "{:gutter_width$} | {space:>caret_chars$}^ {msg}",
-                    "",
-                    space = "",
-                    msg = msg
-                )?;
+                write!(f, "{:gutter_width$} | ", "")?;
+                write_spaces(f, caret_chars)?;
+                writeln!(f, "^ {msg}")?;
             }
         }
     }
